@@ -325,7 +325,7 @@ Section AEADMIXED.
     intros Hi Hl.
     assert (L5 : (5 <= length n)%nat) by (rewrite Hl; destruct (e_prim e); simpl; lia).
     unfold svc_decrypt. apply first_some_ok.
-    - intros pf y _ Hd. destruct (tink_attempt_gen _ _ _ _ _ _ _ _ _ L5 Hd) as [e' [u H]]. symmetry. apply H.
+    - intros pf y _ Hd. destruct (tink_attempt_gen _ _ _ _ _ _ _ _ _ L5 Hd) as [e' [u (_ & _ & _ & _ & _ & Hy)]]. exact Hy.
     - exists (prefix_of e). split; [apply nodup_bytes_in, in_map; exact Hi|]. apply tink_own_gen; assumption.
   Qed.
 
@@ -382,11 +382,11 @@ Lemma inst_code_prefix_free k n a m k' n' a' m' t :
   inst_code k n a m = inst_code k' n' a' m' ++ t -> k = k' /\ n = n' /\ a = a' /\ m = m' /\ t = [].
 Proof.
   unfold inst_code, lp. intro H. cbn [app] in H. inversion H as [[Hk Hn Hr]]. clear H.
-  apply Nat2N.inj in Hn. rewrite <- !app_assoc in Hr. destruct (app_eq_len _ _ _ _ Hn Hr) as [-> Hr2].
-  cbn [app] in Hr2. inversion Hr2 as [[Ha Hr3]]. apply Nat2N.inj in Ha.
-  destruct (app_eq_len _ _ _ _ Ha Hr3) as [-> Hr4].
-  cbn [app] in Hr4. inversion Hr4 as [[Hm Hr5]]. apply Nat2N.inj in Hm.
-  destruct (app_eq_len _ _ _ _ Hm Hr5) as [-> Ht]. auto.
+  apply Nat2N.inj in Hn. rewrite <- ?app_assoc in Hr. destruct (app_eq_len _ _ _ _ Hn Hr) as [-> Hr2].
+  rewrite <- ?app_assoc in Hr2. cbn [app] in Hr2. inversion Hr2 as [[Ha Hr3]]. apply Nat2N.inj in Ha.
+  rewrite <- ?app_assoc in Hr3. destruct (app_eq_len _ _ _ _ Ha Hr3) as [-> Hr4].
+  rewrite <- ?app_assoc in Hr4. cbn [app] in Hr4. inversion Hr4 as [[Hm Hr5]]. apply Nat2N.inj in Hm.
+  rewrite <- (app_nil_r m) in Hr5 at 1. destruct (app_eq_len _ _ _ _ Hm Hr5) as [-> Ht]. subst. repeat split; rewrite ?app_nil_r; reflexivity.
 Qed.
 
 Lemma inst_bind k n a m k' n' a' m' :
